@@ -353,6 +353,8 @@ func runC09(c *Ctx) {
 	for i := 0; i < nx; i++ {
 		runRawRecvScenario(c, i, 45)
 	}
+	runRawRecvResizeWithHeld(c, 0)
+	runRawRecvResizeWithHeld(c, 1)
 	// TTL option range on all six sockets
 	for _, s := range hopSites {
 		p := s.mk()
